@@ -36,11 +36,10 @@ Proof.
   destruct (Nat.eqb (length arglocs) 2) eqn:E2.
   - apply Nat.eqb_eq in E2. rewrite E2 in L.
     destruct vs as [|v1 [|v2 [|v3 vs']]]; try discriminate L.
-    binv H. Show. destruct r as [rn|]; [|discriminate]. inversion H0; subst a; clear H0.
-    destruct rn as [t0 a0 b0 c0 ol or]. cbn [n_left n_right] in *. subst ol.
+    binv H. subst r. destruct a as [t0 x0 y0 z0 ol or]. cbn [n_left n_right] in *. subst ol.
     destruct (n_type a0) eqn:Et; try (inversion H; subst rco;
       unfold builtin_of; destruct or as [[? ? ? ? [?|] ?]|]; rewrite ?Et; reflexivity).
-    binv H. subst or. destruct a as [t1 a1' b1 c1 ol1 or1]. cbn [n_left] in *. subst ol1.
+    binv H. subst or. destruct a as [t1 x1 y1 z1 ol1 or1]. cbn [n_left] in *. subst ol1.
     inversion H; subst rco; clear H. unfold builtin_of. rewrite Et.
     destruct (n_type a1); reflexivity.
   - inversion H; subst rco.
@@ -94,7 +93,7 @@ Proof.
       - specialize (IHl HSl _ _ _ HF He HL H0).
         destruct (fargs x facc) as [facc1|] eqn:Ef; auto. destruct IHl as [I1 I2]. split; auto. split; auto.
         eapply FRel_ext; [|eapply fargs_ssame; eauto|exact HF].
-        apply (ca_funcs _ _ (call_args_calm x HSl' _ _ H0)).
+        apply (ca_funcs _ _ (call_args_calm x (dv_calm_all x) _ _ H0)).
       - inversion H0; subst. auto. }
     destruct (fargs_opt l facc) as [facc1|].
     + destruct S1 as (He1 & HL1 & HF1).
@@ -103,7 +102,7 @@ Proof.
       * inversion H; subst. auto.
     + intros Hx. apply S1.
       destruct r as [x|]; cbn [call_args_o] in H.
-      * apply (ca_errs _ _ (call_args_calm x HSr' _ _ H) Hx).
+      * apply (ca_errs _ _ (call_args_calm x (dv_calm_all x) _ _ H) Hx).
       * inversion H; subst. exact Hx.
   - rewrite call_args_leaf in H by (cbn; auto). binv H. inversion H; subst acc'; clear H. cbn [fst snd].
     rewrite fargs_eq.
@@ -121,4 +120,169 @@ Proof.
       destruct (flat_value (Node t line file tok l r) (fst facc)) as [[s' v]|]; auto.
       split; auto. cbn [snd]. rewrite !app_length. cbn. lia. }
     destruct t; try exact Hleaf. congruence.
+Qed.
+
+Lemma value_sim_all : forall n, all_sub VS n.
+Proof.
+  apply all_sub_intro. intros t line file tok l r Hl Hr tgt g g' s HF He H.
+  pose proof (q_adv g line file) as Qa. pose proof (ss_move_to s file line) as Sa.
+  assert (HFa : FRel' (advance_line g line file) (move_to s file line))
+    by (eapply FRel_ext; [apply (qu_funcs _ _ Qa) | exact Sa | exact HF]).
+  assert (Hea : g_errs (advance_line g line file) = []) by (rewrite (qu_errs _ _ Qa); exact He).
+  destruct (value_type t) eqn:Et.
+  - destruct t; try discriminate.
+    + (* NAME *) rewrite dv_name in H. binv H. inversion H; subst. rewrite flat_value_name. cbv zeta. cbn.
+      apply q_fetch_variable in H0. rewrite (qu_errs _ _ H0). exact Hea.
+    + (* NUMBER *) rewrite dv_number in H. inversion H; subst. rewrite flat_value_number. cbv zeta.
+      unfold gen_str_to_int. cbn [fst snd]. destruct (INT_MAX <=? strtol tok).
+      * apply err_ne.
+      * cbn. exact Hea.
+    + (* CALL *) rewrite dv_call in H. binv H. destruct a as [g1 arglocs].
+      pose proof H as Htail. unfold call_tail in H. binv H. subst l.
+      rewrite flat_value_call. cbv zeta.
+      set (s0 := move_to s file line) in *.
+      assert (SA : match (match r with None => Some (s0, []) | Some rn0 => fargs rn0 (s0, []) end) with
+                   | Some (s1, vs) => g_errs g1 = [] /\ length arglocs = length vs /\ FRel' g1 s1
+                   | None => g_errs g1 <> []
+                   end).
+      { destruct r as [rn0|]; cbn [call_args_o] in H0.
+        - cbn in Hr. pose proof (args_sim rn0 Hr (advance_line g line file, []) (g1, arglocs) (s0, []) HFa Hea eq_refl H0) as HA.
+          cbn [fst snd] in HA.
+          destruct (fargs rn0 (s0, [])) as [[s1 vs]|] eqn:Ef; auto. destruct HA as [A1 A2]. split; auto. split; auto.
+          eapply FRel_ext; [|apply (fargs_ssame _ _ _ Ef)|exact HFa].
+          apply (ca_funcs _ _ (call_args_calm rn0 (dv_calm_all rn0) _ _ H0)).
+        - inversion H0; subst. auto. }
+      destruct (match r with None => Some (s0, []) | Some rn0 => fargs rn0 (s0, []) end) as [[s1 vs]|].
+      2:{ intros Hx. apply SA. apply (ca_errs _ _ (c_call_tail _ _ _ _ _ _ Htail) Hx). }
+      destruct SA as (He1 & HL1 & HF1).
+      pose proof (call_const_builtin _ _ _ vs _ H2 HL1) as HB.
+      pose proof (fun Hp => plain_sim g1 arglocs (n_tok a) tgt g' s1 vs HF1 He1 HL1 Hp) as HP.
+      destruct a0 as [ctok|]; destruct (builtin_of r vs) as [[v1 c]|]; try contradiction; [|apply HP; exact H].
+      change [95; 95; 73; 78; 67; 95; 95]%N with name_INC. change [95; 95; 68; 69; 67; 95; 95]%N with name_DEC.
+      destruct (str_eqb (n_tok a) name_INC) eqn:EI; cbn [orb] in H.
+      * binv H. inversion H; subst. cbn. exact He1.
+      * destruct (str_eqb (n_tok a) name_DEC) eqn:ED; [|apply HP; exact H].
+        binv H. cbn [andb] in H. inversion H; subst. cbn. exact He1.
+  - rewrite dv_other in H by auto. inversion H; subst.
+    rewrite flat_value_other by (destruct t; discriminate || congruence). apply err_ne.
+Qed.
+
+Lemma value_sim n tgt g g' s :
+  FRel' g s -> g_errs g = [] -> dispatch_value false n tgt g = Ok g' ->
+  match flat_value n s with Some _ => g_errs g' = [] | None => g_errs g' <> [] end.
+Proof. apply (all_sub_here _ _ (value_sim_all n)). Qed.
+
+(* ================================================================================================ *)
+(* parameters                                                                                        *)
+(* ================================================================================================ *)
+Lemma existsb_str_in x l : existsb (str_eqb x) l = true <-> In x l.
+Proof.
+  rewrite existsb_exists. split.
+  - intros (y & Hy & E). apply str_eqb_eq in E. subst; auto.
+  - intros H. exists x. split; auto. apply str_eqb_eq. reflexivity.
+Qed.
+
+Lemma no_dup_spec l : no_dup l = true <-> NoDup l.
+Proof.
+  induction l as [|x t IH]; cbn [no_dup].
+  - split; [constructor | reflexivity].
+  - rewrite andb_true_iff, negb_true_iff, IH. split.
+    + intros [H1 H2]. constructor; auto. intros Hi. apply existsb_str_in in Hi. congruence.
+    + intros H. inversion H; subst. split; auto.
+      destruct (existsb (str_eqb x) t) eqn:E; auto. apply existsb_str_in in E. contradiction.
+Qed.
+
+Lemma NoDup_app_l {A} (a b : list A) : NoDup (a ++ b) -> NoDup a.
+Proof.
+  induction a as [|x a IH]; cbn; intros H; [constructor|]. inversion H; subst. constructor; auto.
+  intros Hi. apply H2. apply in_or_app. auto.
+Qed.
+
+Lemma NoDup_snoc_inv {A} (a : list A) x : NoDup (a ++ [x]) -> NoDup a /\ ~ In x a.
+Proof.
+  intros H. split; [eapply NoDup_app_l; eauto|].
+  apply NoDup_remove_2 in H. rewrite app_nil_r in H. exact H.
+Qed.
+
+Lemma find_reg_none regs tok : forall k, find_reg regs tok k = None <-> ~ In tok (map vname regs).
+Proof.
+  induction regs as [|r t IH]; intros k; cbn [find_reg map In]; [tauto|].
+  destruct (str_eqb (vname r) tok) eqn:E.
+  - apply str_eqb_eq in E. split; [discriminate | intros H; exfalso; apply H; auto].
+  - rewrite IH. split; [|tauto]. intros H [H1|H1]; auto. subst. rewrite (proj2 (str_eqb_eq _ _) eq_refl) in E. discriminate.
+Qed.
+
+Lemma param_names_leaf t line file tok l r : t <> N_SPLIT -> param_names (Node t line file tok l r) = [tok].
+Proof. destruct t; intros H; try reflexivity. congruence. Qed.
+
+Definition oparams (o : option node) : list str := match o with Some x => param_names x | None => [] end.
+
+Definition DAS (n : node) : Prop := forall g g' f tl,
+  g_syms g = f :: tl -> g_errs g = [] -> NoDup (map vname (f_regs f)) ->
+  dispatch_args_n false n g = Ok g' ->
+  (NoDup (map vname (f_regs f) ++ param_names n) ->
+     g_errs g' = [] /\ exists f', g_syms g' = f' :: tl /\
+       map vname (f_regs f') = map vname (f_regs f) ++ param_names n /\
+       f_argnum f' = f_argnum f + zlen (param_names n)) /\
+  (~ NoDup (map vname (f_regs f) ++ param_names n) -> g_errs g' <> []).
+
+Lemma da_sim : forall n, DAS n.
+Proof.
+  induction n as [t line file tok l r IHl IHr] using Proofs_Gen0.node_ind'. intros g g' f tl Es He Hnd H.
+  destruct (ntype_eq_dec_split t) as [->|Hn].
+  - rewrite da_split in H. binv H.
+    change (param_names (Node N_SPLIT line file tok l r)) with (oparams l ++ oparams r).
+    set (names := map vname (f_regs f)) in *.
+    assert (L : (NoDup (names ++ oparams l) ->
+                   g_errs a = [] /\ exists f1, g_syms a = f1 :: tl /\ map vname (f_regs f1) = names ++ oparams l /\
+                     f_argnum f1 = f_argnum f + zlen (oparams l)) /\
+                (~ NoDup (names ++ oparams l) -> g_errs a <> [])).
+    { destruct l as [x|]; cbn [dispatch_args oparams] in *.
+      - exact (IHl g a f tl Es He Hnd H0).
+      - inversion H0; subst a. rewrite app_nil_r. split; [|tauto]. intros _. split; auto.
+        exists f. repeat split; auto. cbn. lia. }
+    assert (Hsa : g_syms a <> []).
+    { destruct l as [x|]; cbn [dispatch_args] in H0.
+      - eapply calm_args_syms. eapply da_calm; [|exact H0]. rewrite Es; discriminate.
+      - inversion H0; subst. rewrite Es; discriminate. }
+    assert (Rm : g_errs g' = [] -> g_errs a = []).
+    { destruct r as [x|]; cbn [dispatch_args] in H.
+      - apply (cg_errs _ _ (da_calm x a g' Hsa H)).
+      - inversion H; subst. auto. }
+    destruct L as [L1 L2].
+    destruct (no_dup (names ++ oparams l)) eqn:El.
+    + apply no_dup_spec in El. destruct (L1 El) as (He1 & f1 & Es1 & Hn1 & Ha1).
+      assert (R : (NoDup ((names ++ oparams l) ++ oparams r) ->
+                   g_errs g' = [] /\ exists f2, g_syms g' = f2 :: tl /\
+                     map vname (f_regs f2) = (names ++ oparams l) ++ oparams r /\
+                     f_argnum f2 = f_argnum f1 + zlen (oparams r)) /\
+                  (~ NoDup ((names ++ oparams l) ++ oparams r) -> g_errs g' <> [])).
+      { destruct r as [x|]; cbn [dispatch_args oparams] in *.
+        - rewrite <- Hn1. apply (IHr a g' f1 tl Es1 He1); auto. rewrite Hn1. exact El.
+        - inversion H; subst g'. rewrite app_nil_r. split; [|tauto]. intros _. split; auto.
+          exists f1. repeat split; auto. cbn. lia. }
+      rewrite app_assoc. destruct R as [R1 R2]. split; [|exact R2].
+      intros Hx. destruct (R1 Hx) as (He2 & f2 & Es2 & Hn2 & Ha2). split; auto.
+      exists f2. repeat split; auto. rewrite Ha2, Ha1, zlen_app. lia.
+    + assert (Hnn : ~ NoDup (names ++ oparams l)).
+      { intros Hx. apply no_dup_spec in Hx. congruence. }
+      split.
+      * intros Hx. exfalso. apply Hnn. rewrite app_assoc in Hx. eapply NoDup_app_l; eauto.
+      * intros _ Hx. apply (L2 Hnn). auto.
+  - rewrite da_leaf in H by auto. rewrite param_names_leaf by auto.
+    unfold get_symbols in H. rewrite Es in H. cbn [hd_error of_opt bind] in H.
+    destruct (find_reg (f_regs f) tok 0) eqn:Ef.
+    + inversion H; subst g'. assert (Hin : In tok (map vname (f_regs f))).
+      { destruct (in_dec (list_eq_dec N.eq_dec) tok (map vname (f_regs f))) as [Hi|Hi]; auto.
+        apply (find_reg_none _ _ 0) in Hi. congruence. }
+      split.
+      * intros Hx. apply NoDup_snoc_inv in Hx. tauto.
+      * intros _. cbn. destruct (g_errs g); discriminate.
+    + apply find_reg_none in Ef.
+      unfold fetch_variable, get_symbols, set_symbols in H. cbn [g_syms upd_syms hd_error of_opt bind f_regs] in H.
+      assert (Ef' : find_reg (f_regs f) tok 0 = None) by (apply find_reg_none; auto).
+      rewrite Ef' in H. cbn [bind fst] in H. inversion H; subst g'; clear H. cbn.
+      split.
+      * intros _. split; auto. rewrite Es. cbn [List.tl]. eexists. split; [reflexivity|]. cbn. rewrite map_app. cbn. split; auto.
+      * intros Hx. exfalso. apply Hx. apply NoDup_snoc; auto.
 Qed.
